@@ -460,6 +460,36 @@ func ruleStderrNewline(c *Ctx) {
 		}
 		return (at.Kind == "nil" && at.Op == token.NEQ) || (at.Kind == "cmp" && at.Op == token.EQL)
 	}
+	// the prefix state of the previous chunk is carried into the next iteration:
+	// some variable declared outside the read loop is assigned isPrefix
+	{
+		carried := false
+		var loopPos, loopEnd token.Pos
+		ast.Inspect(f.Body, func(x ast.Node) bool {
+			if fs, ok := x.(*ast.ForStmt); ok && fs.Pos() <= readN.Ast.Pos() && readN.Ast.End() <= fs.End() {
+				loopPos, loopEnd = fs.Pos(), fs.End()
+			}
+			return true
+		})
+		for _, m := range g.Nodes {
+			as, ok := m.Ast.(*ast.AssignStmt)
+			if !ok || len(as.Lhs) != len(as.Rhs) {
+				continue
+			}
+			for i, r := range as.Rhs {
+				if identObj(info, r) == prefV {
+					if lv, ok := identObj(info, as.Lhs[i]).(*types.Var); ok && lv != prefV && (lv.Pos() < loopPos || lv.Pos() > loopEnd) {
+						carried = true
+					}
+				}
+			}
+		}
+		if carried {
+			c.R.Hold("R-DRAIN/newline", p.Pos(readN.Ast), f.Name, "prefix state carried to the next chunk", "a variable declared outside the read loop is assigned isPrefix", true)
+		} else {
+			c.R.Violate("R-DRAIN/newline", p.Pos(readN.Ast), f.Name, "prefix state carried to the next chunk", "nothing records that the chunk just read was the prefix of a longer line: the rest of that line is then parsed and logged as if it were a line of its own (wrong level, a forged JSON record)", nil)
+		}
+	}
 	// (a) a complete line (isPrefix false): a newline is written before the next read
 	seenA := g.ReachAfter(readN, isNL, func(e *Edge) bool { return errEdge(e) || prefixEdge(e, true) })
 	_, missA := seenA[readN]
@@ -1160,6 +1190,55 @@ func ruleMuxOnlyGRPC(c *Ctx) {
 		}
 		return true
 	})
+	// ... and it really wraps the listener that is served
+	{
+		var servedL *types.Var
+		for _, call := range f.Calls() {
+			if p.CalleeName(f, call) == modPath+".ServerProtocol.Serve" && len(call.Args) == 1 {
+				servedL, _ = identObj(info, call.Args[0]).(*types.Var)
+			}
+		}
+		// copies var <- var (incl. the temporaries an inlined helper's results go through)
+		from := map[types.Object][]types.Object{}
+		ast.Inspect(f.Body, func(x ast.Node) bool {
+			if as, ok := x.(*ast.AssignStmt); ok && len(as.Lhs) == len(as.Rhs) {
+				for i, l := range as.Lhs {
+					lo, ro := identObj(info, l), identObj(info, as.Rhs[i])
+					if lo != nil && ro != nil {
+						from[lo] = append(from[lo], ro)
+					}
+				}
+			}
+			return true
+		})
+		wraps := false
+		seenO := map[types.Object]bool{}
+		var walkO func(o types.Object, d int)
+		walkO = func(o types.Object, d int) {
+			if o == nil || seenO[o] || d > 6 {
+				return
+			}
+			seenO[o] = true
+			if muxVar != nil && o == types.Object(muxVar) {
+				wraps = true
+				return
+			}
+			for _, r := range from[o] {
+				walkO(r, d+1)
+			}
+		}
+		if servedL != nil {
+			walkO(servedL, 0)
+		}
+		if servedL == nil {
+			c.R.Undecided("R-SIB/switch", f.Name, "server muxer wraps the served listener", "the listener passed to ServerProtocol.Serve is not a variable")
+		} else if wraps {
+			c.R.Hold("R-SIB/switch", p.Pos(f.Node()), f.Name, "server muxer wraps the served listener", "the listener variable that is served is assigned the muxer", true)
+		} else {
+			c.R.Violate("R-SIB/switch", p.Pos(f.Node()), f.Name, "server muxer wraps the served listener",
+				"the multiplexer is created but the listener that is served is never replaced by it: the plugin announces multiplexing support and serves the raw listener, so the host's yamux session meets a gRPC server and every call fails", nil)
+		}
+	}
 	if nLit == 0 {
 		c.R.Undecided("R-SIB/switch", f.Name, "server muxer handed to the gRPC server", "no GRPCServer literal found in Serve")
 	} else if given {
